@@ -56,14 +56,14 @@ PARTIAL = ["build_strict_layout_partial: proved on the judge's layout domain wfL
            "blank_run_at_wrap_record_witness / nameless_locus_witness show the clause fails there (class tag /lay = inside the theorem)",
            "parse_build (parse (build x o) ≈ ok x over the parser model of C01, on the judge's round-trip domain wfSeqJ): proved as "
            "parse_build_partial (Props/C03Parse.lean) under `covered x` = wfSeqJ minus the two known findings (wfLayoutG: runs of blanks allowed "
-           "when none falls on a wrap point — general bridge lemma wrapText_breaks_general over the refined wrap relation WrappedS) && positional "
-           "Index && REFERENCE lines wrapped without loss && GbLayout.wf (toRec x). What `covered` still adds, with the reason: (1) [gone: a date now "
+           "when none falls on a wrap point — general bridge lemma wrapText_breaks_general over the refined wrap relation WrappedS) && REFERENCE "
+           "lines wrapped without loss && GbLayout.wf (toRec x). What `covered` still adds, with the reason: (1) [gone: a date now "
            "needs a real month in the judge's domain too — `01-PRI-2020` is not a date, and the real parser would read PRI as the division]; (2) no quotation mark in a qualifier key [C01 isQualKeyChar: such a key breaks C01's value-less "
            "/ unquoted layouts under the 9a46c6b rule]; (3) the location text is ONE INSDC-shaped expression [C01 isLocText]; (4) [gone: the judge's round-trip domain has the same bound — from base 10^8 on the ORIGIN counter fills "
            "its nine columns and genbank.Parse takes the sequence line for a keyword line]; (5) the REFERENCE line is not broken AT its own two blanks (`REFERENCE   1` / range on the next line: the real parser reads it, "
-           "C01's layouts never break next to a blank) — any other wrapping of the line is covered; (6) Reference.Index is the position [C01's "
-           "toRefs / refHead number by position; requested from C01: a number field in RRef]; (7) the two known findings (blank run at a wrap point, "
-           "no locus name). Item 6 needs a number field in C01's RRef (feasible per w-gbparse, not scheduled)",
+           "C01's layouts never break next to a blank) — any other wrapping of the line is covered; (6) [gone: C01's RRef carries the reference's own number since 1a12106; any blank-free Index, gaps, repeats, unset] "
+           "(7) the two known findings (blank run at a wrap point, "
+           "no locus name).",
            "parse_build_partial compares the location TEXT of each feature (Genbank.parse leaves parseLocation to C02). That the STRUCTURE "
            "parseLocation derives from that text equals the record's SequenceLocation (modulo normLoc) rests on (a) wfSeq's conjunct cacheConsistent for "
            "cached texts and (b) property C02's theorem parsed_structure (Props/C02.lean: parseLocation (print l) = ok (pembed l)) together with "
@@ -248,9 +248,9 @@ def gen_record(r, maxseq, maxfeat, maxmeta, cached_mode, shadow=False, covered=F
     if (not covered) and r.random() < 0.02:
         rec["name"] = ""                                # a record assembled without a locus name (known finding)
     refs = []
-    renumber = (not covered) and r.random() < 0.08      # Reference.Index unset / not the position (repaired by be39eee: ordinary cases)
+    renumber = r.random() < 0.15      # own reference numbers (be39eee): unset, gaps, repeats, 0, any token
     for i in range(r.choice([0, 0, 1, 1, 2, 3, 4, 5])):
-        refs.append((r.choice(["", str(i + 2), "7", "12a"]) if renumber else str(i + 1), text(r, maxmeta // 2, 0.2, kw=r.random() < 0.15), text(r, maxmeta // 2, 0.2, kw=r.random() < 0.15),
+        refs.append((r.choice(["", str(i + 2), str(2 * i + 3), "7", "0", "12a"]) if renumber else str(i + 1), text(r, maxmeta // 2, 0.2, kw=r.random() < 0.15), text(r, maxmeta // 2, 0.2, kw=r.random() < 0.15),
                      text(r, 200, 0.2), text(r, 12, 0.4), text(r, maxmeta // 2, 0.5),
                      "" if r.random() < 0.15 else
                      ("(bases %d to %d)" % (r.randint(1, n), n) if (covered or r.random() < 0.85) else
@@ -475,9 +475,9 @@ LEVEL_TEXT = ("Determinism (all map iteration orders), the wrap/unwrap inversion
               "expresses (parse_build_partial) and is judged on the REAL parser for every case (real Parse(real Build(x)) ≈ x, Write/Read "
               "through a file); the parser model itself is compared with the real parser on every written text.")
 LEVEL_NOTE = ("Share of the thorough tier's judged cases inside the theorems' domains (class tags /lay and /pb in the evidence's class histogram; "
-              "last thorough run, 15687 judged): build_strict_layout_partial 91.4 % (all but the two known findings), parse_build_partial 89.3 % "
-              "(the rest: the two known findings, own reference numbers, quotation marks in qualifier keys, "
-              "location texts that are not one expression). Trusted: Lean kernel; harness + pm_C03 judge; the hand transcription of go-wordwrap and of Build (tied by correspondence on every "
+              "last thorough run, 15648 judged): build_strict_layout_partial 91.4 % (all but the two known findings), parse_build_partial 91.3 % "
+              "(the rest: the two known findings, plus 0.1 %: quotation marks in qualifier keys, location texts that are not one expression, a "
+              "REFERENCE line broken at its own two blanks); 16 % of the cases carry own / unset reference numbers, all inside the theorems. Trusted: Lean kernel; harness + pm_C03 judge; the hand transcription of go-wordwrap and of Build (tied by correspondence on every "
               "case, byte for byte); the strict reader as the meaning of 'independent reader'; ASCII.")
 
 HARNESS_BIN = "run-genbank"
